@@ -754,7 +754,7 @@ impl NextU32 for Rng {
 }
 
 fn c05(ctx: &mut Ctx) {
-    batch_runs(ctx, "C05", ctx.n(2, 12), true);
+    batch_runs(ctx, "C05", ctx.n(2, 8), true);
 }
 
 // ------------------------------------------------------------------------------------------------
